@@ -224,6 +224,12 @@ enum Op {
     STruncate { h: usize, n: usize },
     SSlice { h: usize, d: usize, sb: Bd, eb: Bd, try_: bool },
     SFromUtf8 { d: usize, bs: Vec<u8> },
+    // implementation-only probes (no persistent effect, not sent to the model):
+    /// move the value through the other wrapper types and back (pointer identity, no allocation)
+    WrapTrip { h: usize },
+    /// `slice`/`try_slice` with an IMPURE `RangeBounds` whose k-th reading is `readings[k]`
+    /// (`s` = the `HipStr`-level call); the result is checked and dropped within the step
+    Flip { h: usize, readings: Vec<(Bd, Bd)>, try_: bool, s: bool },
 }
 
 impl Op {
@@ -270,7 +276,17 @@ impl Op {
             Op::SSlice { try_: false, .. } => "s_slice",
             Op::SSlice { try_: true, .. } => "s_try_slice",
             Op::SFromUtf8 { .. } => "s_from_utf8",
+            Op::WrapTrip { .. } => "wrap_trip",
+            Op::Flip { try_: false, s: false, .. } => "slice_flip",
+            Op::Flip { try_: true, s: false, .. } => "try_slice_flip",
+            Op::Flip { try_: false, s: true, .. } => "s_slice_flip",
+            Op::Flip { try_: true, s: true, .. } => "s_try_slice_flip",
         }
+    }
+
+    /// probes run on the implementation only: the model is not told, the state does not change
+    fn impl_only(&self) -> bool {
+        matches!(self, Op::WrapTrip { .. } | Op::Flip { .. })
     }
 
     fn is_str_level(&self) -> bool {
@@ -314,6 +330,10 @@ impl Op {
             Op::STruncate { h, n: k } => format!("{n} {h} {k}"),
             Op::SSlice { h, d, sb, eb, .. } => format!("{n} {h} {d} {} {}", sb.show(), eb.show()),
             Op::SFromUtf8 { d, bs } => format!("{n} {d} {}", hex(bs)),
+            Op::WrapTrip { h } => format!("{n} {h}"),
+            Op::Flip { h, readings, .. } => {
+                format!("{n} {h} {}", readings.iter().map(|(a, b)| format!("{}:{}", a.show(), b.show())).collect::<Vec<_>>().join(","))
+            }
         }
     }
 
@@ -369,8 +389,29 @@ impl Op {
             ["s_slice", h, d, a, b] => Op::SSlice { h: u(h)?, d: u(d)?, sb: Bd::parse(a)?, eb: Bd::parse(b)?, try_: false },
             ["s_try_slice", h, d, a, b] => Op::SSlice { h: u(h)?, d: u(d)?, sb: Bd::parse(a)?, eb: Bd::parse(b)?, try_: true },
             ["s_from_utf8", d, x] => Op::SFromUtf8 { d: u(d)?, bs: unhex(x)? },
+            ["wrap_trip", h] => Op::WrapTrip { h: u(h)? },
+            ["slice_flip", h, r] => Op::parse_flip("slice_flip", h, r)?,
+            ["try_slice_flip", h, r] => Op::parse_flip("try_slice_flip", h, r)?,
+            ["s_slice_flip", h, r] => Op::parse_flip("s_slice_flip", h, r)?,
+            ["s_try_slice_flip", h, r] => Op::parse_flip("s_try_slice_flip", h, r)?,
             _ => return None,
         })
+    }
+
+    fn parse_flip(n: &str, h: &str, r: &str) -> Option<Op> {
+        let u = |x: &str| x.parse::<usize>().ok();
+        let readings: Option<Vec<(Bd, Bd)>> = r
+            .split(',')
+            .map(|p| {
+                let (a, b) = p.split_once(':')?;
+                Some((Bd::parse(a)?, Bd::parse(b)?))
+            })
+            .collect();
+        let readings = readings?;
+        if readings.is_empty() {
+            return None;
+        }
+        Some(Op::Flip { h: u(h)?, readings, try_: n.contains("try_"), s: n.starts_with("s_") })
     }
 
     /// (target handle, destination slot)
@@ -412,6 +453,8 @@ impl Op {
             | Op::SPushChar { h, .. }
             | Op::SPop { h }
             | Op::STruncate { h, .. }
+            | Op::WrapTrip { h }
+            | Op::Flip { h, .. }
             | Op::Drop { h } => (Some(h), None),
         }
     }
@@ -508,11 +551,25 @@ trait Subject: Sized + 'static {
     fn to_upper(&self) -> Self {
         unimplemented!()
     }
-    /// runs the script on the guard; `leak` = forget the guard and return (buffer address, capacity)
-    fn mutate(&mut self, script: &[VOp], leak: bool) -> Option<(usize, usize)>;
+    /// runs the script on the guard; returns the address of the guard's buffer as taken from the
+    /// value (before the script) and, if `leak` (the guard is forgotten), (buffer address, capacity)
+    fn mutate(&mut self, script: &[VOp], leak: bool) -> (usize, Option<(usize, usize)>);
     fn into_owned(self) -> Self;
-    fn into_vec(self, var: u64) -> Result<Vec<u8>, Self>;
-    fn to_vec(self, var: u64) -> Vec<u8>;
+    /// the fallible conversions into the std owner (`Err(self)` when the buffer cannot be taken)
+    const INTO_VEC_ROUTES: &'static [&'static str];
+    /// the infallible consuming conversions into a std owner
+    const TO_VEC_ROUTES: &'static [&'static str];
+    const MUTATE_NAME: &'static str;
+    fn into_vec(self, route: usize) -> Result<Vec<u8>, Self>;
+    fn to_vec(self, route: usize) -> Vec<u8>;
+    /// moves the value through the other wrapper types and back (every hop is recorded)
+    fn wrap_trip(self, var: u64, hops: &mut Hops) -> Self;
+    fn slice_flip(&self, r: FlipRange) -> Self {
+        unimplemented!()
+    }
+    fn try_slice_flip(&self, r: FlipRange) -> Result<Self, SliceErr> {
+        unimplemented!()
+    }
     fn into_borrowed(self) -> Result<&'static [u8], Self>;
     fn repeat(&self, n: usize) -> Self {
         unimplemented!()
@@ -535,6 +592,72 @@ trait Subject: Sized + 'static {
     fn uniq(&mut self) -> bool;
     /// formatting compared with std's: `Some((expected, observed))` on a difference
     fn fmt_check(&self, oracle: &[u8]) -> Option<(String, String)>;
+}
+
+/// An impure `RangeBounds<usize>`: the k-th call of `start_bound()` (resp. `end_bound()`) answers
+/// with the k-th scripted reading (the last one from then on).  Safe code may pass such a range.
+/// (No heap storage: the range is built and dropped inside the counted region.)
+struct FlipRange {
+    script: [(Bound<usize>, Bound<usize>); FLIP_MAX],
+    n: usize,
+    s: std::cell::Cell<usize>,
+    e: std::cell::Cell<usize>,
+}
+
+const FLIP_MAX: usize = 6;
+
+impl FlipRange {
+    fn new(readings: &[(Bd, Bd)]) -> Self {
+        let mut script = [(Bound::Unbounded, Bound::Unbounded); FLIP_MAX];
+        let n = readings.len().min(FLIP_MAX);
+        for k in 0..n {
+            script[k] = (readings[k].0.bound(), readings[k].1.bound());
+        }
+        FlipRange { script, n, s: Default::default(), e: Default::default() }
+    }
+}
+
+impl std::ops::RangeBounds<usize> for FlipRange {
+    fn start_bound(&self) -> Bound<&usize> {
+        let k = self.s.get();
+        self.s.set(k + 1);
+        self.script[k.min(self.n - 1)].0.as_ref()
+    }
+    fn end_bound(&self) -> Bound<&usize> {
+        let k = self.e.get();
+        self.e.set(k + 1);
+        self.script[k.min(self.n - 1)].1.as_ref()
+    }
+}
+
+/// The hops of a wrapper-to-wrapper round trip: each must keep the bytes where they are
+/// (same pointer, length, representation).  Fixed storage: filled inside the counted region.
+struct Hops {
+    base: (usize, usize, u8),
+    names: [&'static str; 8],
+    n: usize,
+    moved: Option<&'static str>,
+}
+
+fn repr_id<B: Backend>(hb: &HipByt<'static, B>) -> (usize, usize, u8) {
+    // an inline value lives inside the handle: its address legitimately moves with it
+    let tag = if hb.is_inline() { 1 } else if hb.is_borrowed() { 2 } else { 3 };
+    (if tag == 1 { 0 } else { hb.as_ptr() as usize }, hb.len(), tag)
+}
+
+impl Hops {
+    fn new<B: Backend>(hb: &HipByt<'static, B>) -> Self {
+        Hops { base: repr_id(hb), names: [""; 8], n: 0, moved: None }
+    }
+    fn hop<B: Backend>(&mut self, name: &'static str, hb: &HipByt<'static, B>) {
+        if self.n < 8 {
+            self.names[self.n] = name;
+            self.n += 1;
+        }
+        if repr_id(hb) != self.base && self.moved.is_none() {
+            self.moved = Some(name);
+        }
+    }
 }
 
 enum Owned<B: Backend> {
@@ -694,26 +817,75 @@ impl<B: Backend> Subject for HipByt<'static, B> {
     fn to_upper(&self) -> Self {
         self.to_ascii_uppercase()
     }
-    fn mutate(&mut self, script: &[VOp], leak: bool) -> Option<(usize, usize)> {
+    fn mutate(&mut self, script: &[VOp], leak: bool) -> (usize, Option<(usize, usize)>) {
         let mut g = HipByt::mutate(self);
         let v: &mut Vec<u8> = &mut **g;
+        let taken = v.as_ptr() as usize;
         apply_vec(v, script);
         if leak {
             let r = (v.as_ptr() as usize, v.capacity());
             std::mem::forget(g);
-            Some(r)
+            (taken, Some(r))
         } else {
-            None
+            (taken, None)
         }
     }
     fn into_owned(self) -> Self {
         HipByt::into_owned(self)
     }
-    fn into_vec(self, _: u64) -> Result<Vec<u8>, Self> {
+    const INTO_VEC_ROUTES: &'static [&'static str] = &["HipByt::into_vec"];
+    const TO_VEC_ROUTES: &'static [&'static str] = &["Vec<u8>::from(HipByt)", "BString::from(HipByt)", "Cow<[u8]>::from(HipByt)"];
+    const MUTATE_NAME: &'static str = "HipByt::mutate (guard takes the Vec)";
+    fn into_vec(self, _: usize) -> Result<Vec<u8>, Self> {
         HipByt::into_vec(self)
     }
-    fn to_vec(self, _: u64) -> Vec<u8> {
-        Vec::from(self)
+    fn to_vec(self, route: usize) -> Vec<u8> {
+        match route {
+            1 => Vec::<u8>::from(bstr::BString::from(self)),
+            2 => Cow::<'static, [u8]>::from(self).into_owned(),
+            _ => Vec::<u8>::from(self),
+        }
+    }
+    fn wrap_trip(self, var: u64, hops: &mut Hops) -> Self {
+        match HipStr::from_utf8(self) {
+            Ok(s) => {
+                hops.hop("HipStr::from_utf8(HipByt) Ok", s.verif_bytes());
+                match var % 3 {
+                    0 => {
+                        let b = HipStr::into_bytes(s);
+                        hops.hop("HipStr::into_bytes", &b);
+                        b
+                    }
+                    1 => {
+                        let b = HipByt::from(s);
+                        hops.hop("HipByt::from(HipStr)", &b);
+                        b
+                    }
+                    _ => {
+                        let o = HipOsStr::from(s);
+                        hops.hop("HipOsStr::from(HipStr)", o.verif_bytes());
+                        let p = HipPath::from(o);
+                        hops.hop("HipPath::from(HipOsStr)", p.verif_bytes());
+                        let o = HipPath::into_os_str(p);
+                        hops.hop("HipPath::into_os_str", o.verif_bytes());
+                        let b = if var % 2 == 0 { HipOsStr::into_bytes(o) } else { HipByt::from(o) };
+                        hops.hop(if var % 2 == 0 { "HipOsStr::into_bytes" } else { "HipByt::from(HipOsStr)" }, &b);
+                        b
+                    }
+                }
+            }
+            Err(e) => {
+                let b = e.into_bytes();
+                hops.hop("HipStr::from_utf8(HipByt) Err -> FromUtf8Error::into_bytes", &b);
+                b
+            }
+        }
+    }
+    fn slice_flip(&self, r: FlipRange) -> Self {
+        HipByt::slice(self, r)
+    }
+    fn try_slice_flip(&self, r: FlipRange) -> Result<Self, SliceErr> {
+        HipByt::try_slice(self, r).map_err(|e| (e.start(), e.end(), bkind_name(e.kind())))
     }
     fn into_borrowed(self) -> Result<&'static [u8], Self> {
         HipByt::into_borrowed(self)
@@ -743,7 +915,7 @@ impl<B: Backend> Subject for HipStr<'static, B> {
         true
     }
     fn supports(op: &Op) -> bool {
-        !matches!(op, Op::Inline { .. } | Op::TryInline { .. } | Op::Spare { .. })
+        !matches!(op, Op::Inline { .. } | Op::TryInline { .. } | Op::Spare { .. } | Op::Flip { s: false, .. })
     }
     fn new() -> Self {
         HipStr::new()
@@ -841,9 +1013,10 @@ impl<B: Backend> Subject for HipStr<'static, B> {
     fn to_upper(&self) -> Self {
         self.to_ascii_uppercase()
     }
-    fn mutate(&mut self, script: &[VOp], leak: bool) -> Option<(usize, usize)> {
+    fn mutate(&mut self, script: &[VOp], leak: bool) -> (usize, Option<(usize, usize)>) {
         let mut g = HipStr::mutate(self);
         let s: &mut String = &mut *g;
+        let taken = s.as_ptr() as usize;
         for o in script {
             match o {
                 VOp::Push(b) => s.push(*b as char),
@@ -855,23 +1028,86 @@ impl<B: Backend> Subject for HipStr<'static, B> {
         if leak {
             let r = (s.as_ptr() as usize, s.capacity());
             std::mem::forget(g);
-            Some(r)
+            (taken, Some(r))
         } else {
-            None
+            (taken, None)
         }
     }
     fn into_owned(self) -> Self {
         HipStr::into_owned(self)
     }
-    fn into_vec(self, _: u64) -> Result<Vec<u8>, Self> {
-        self.into_string().map(String::into_bytes)
+    const INTO_VEC_ROUTES: &'static [&'static str] = &["HipStr::into_string"];
+    const TO_VEC_ROUTES: &'static [&'static str] = &["String::from(HipStr)", "Vec<u8>::from(HipStr)", "OsString::from(HipStr)", "Cow<str>::from(HipStr)"];
+    const MUTATE_NAME: &'static str = "HipStr::mutate (guard takes the String)";
+    fn into_vec(self, _: usize) -> Result<Vec<u8>, Self> {
+        HipStr::into_string(self).map(String::into_bytes)
     }
-    fn to_vec(self, var: u64) -> Vec<u8> {
-        match var % 3 {
+    fn to_vec(self, route: usize) -> Vec<u8> {
+        match route {
             1 => Vec::<u8>::from(self),
             2 => OsString::from(self).into_vec(),
+            3 => Cow::<'static, str>::from(self).into_owned().into_bytes(),
             _ => String::from(self).into_bytes(),
         }
+    }
+    fn wrap_trip(self, var: u64, hops: &mut Hops) -> Self {
+        match var % 4 {
+            0 => {
+                let o = HipOsStr::from(self);
+                hops.hop("HipOsStr::from(HipStr)", o.verif_bytes());
+                match HipOsStr::into_str(o) {
+                    Ok(s) => {
+                        hops.hop("HipOsStr::into_str Ok", s.verif_bytes());
+                        s
+                    }
+                    Err(o) => {
+                        hops.moved = Some("HipOsStr::into_str refused well-formed text");
+                        unsafe { HipStr::from_utf8_unchecked(HipOsStr::into_bytes(o)) }
+                    }
+                }
+            }
+            1 => {
+                let p = HipPath::from(self);
+                hops.hop("HipPath::from(HipStr)", p.verif_bytes());
+                match HipPath::into_str(p) {
+                    Ok(s) => {
+                        hops.hop("HipPath::into_str Ok", s.verif_bytes());
+                        s
+                    }
+                    Err(p) => {
+                        hops.moved = Some("HipPath::into_str refused well-formed text");
+                        unsafe { HipStr::from_utf8_unchecked(HipOsStr::into_bytes(HipPath::into_os_str(p))) }
+                    }
+                }
+            }
+            2 => {
+                let b = HipStr::into_bytes(self);
+                hops.hop("HipStr::into_bytes", &b);
+                match HipStr::try_from(b) {
+                    Ok(s) => {
+                        hops.hop("HipStr::try_from(HipByt) Ok", s.verif_bytes());
+                        s
+                    }
+                    Err(e) => {
+                        hops.moved = Some("HipStr::try_from(HipByt) refused well-formed text");
+                        unsafe { HipStr::from_utf8_unchecked(e.into_bytes()) }
+                    }
+                }
+            }
+            _ => {
+                let b = HipByt::from(self);
+                hops.hop("HipByt::from(HipStr)", &b);
+                let s = unsafe { HipStr::from_utf8_unchecked(b) };
+                hops.hop("HipStr::from_utf8_unchecked", s.verif_bytes());
+                s
+            }
+        }
+    }
+    fn slice_flip(&self, r: FlipRange) -> Self {
+        HipStr::slice(self, r)
+    }
+    fn try_slice_flip(&self, r: FlipRange) -> Result<Self, SliceErr> {
+        HipStr::try_slice(self, r).map_err(|e| (e.start(), e.end(), skind_name(e.kind())))
     }
     fn into_borrowed(self) -> Result<&'static [u8], Self> {
         HipStr::into_borrowed(self).map(str::as_bytes)
@@ -923,7 +1159,7 @@ impl<B: Backend> Subject for HipOsStr<'static, B> {
     fn supports(op: &Op) -> bool {
         match op {
             Op::Mutate { script, .. } => script.iter().all(|o| matches!(o, VOp::Ext(_) | VOp::Clear)),
-            Op::SliceRef { .. } | Op::Adopt { .. } | Op::Push { .. } => true,
+            Op::SliceRef { .. } | Op::Adopt { .. } | Op::Push { .. } | Op::WrapTrip { .. } => true,
             Op::New { .. } | Op::FromSlice { .. } | Op::FromVec { .. } | Op::Borrowed { .. } | Op::WithCap { .. } => true,
             Op::Clone { .. } | Op::ShrinkTo { .. } | Op::ShrinkFit { .. } | Op::IntoOwned { .. } => true,
             Op::IntoVec { .. } | Op::ToVec { .. } | Op::IntoBorrowed { .. } | Op::Drop { .. } => true,
@@ -969,9 +1205,10 @@ impl<B: Backend> Subject for HipOsStr<'static, B> {
     fn shrink_to_fit(&mut self) {
         HipOsStr::shrink_to_fit(self)
     }
-    fn mutate(&mut self, script: &[VOp], leak: bool) -> Option<(usize, usize)> {
+    fn mutate(&mut self, script: &[VOp], leak: bool) -> (usize, Option<(usize, usize)>) {
         let mut g = HipOsStr::mutate(self);
         let s: &mut OsString = &mut *g;
+        let taken = s.as_bytes().as_ptr() as usize;
         for o in script {
             match o {
                 VOp::Ext(bs) => s.push(OsStr::from_bytes(bs)),
@@ -982,21 +1219,55 @@ impl<B: Backend> Subject for HipOsStr<'static, B> {
         if leak {
             let r = (s.as_bytes().as_ptr() as usize, s.capacity());
             std::mem::forget(g);
-            Some(r)
+            (taken, Some(r))
         } else {
-            None
+            (taken, None)
         }
     }
     fn into_owned(self) -> Self {
         HipOsStr::into_owned(self)
     }
-    fn into_vec(self, _: u64) -> Result<Vec<u8>, Self> {
-        self.into_os_string().map(OsString::into_vec)
+    const INTO_VEC_ROUTES: &'static [&'static str] = &["HipOsStr::into_os_string"];
+    const TO_VEC_ROUTES: &'static [&'static str] = &["OsString::from(HipOsStr)", "Vec<u8>::from(HipOsStr)", "Cow<OsStr>::from(HipOsStr)"];
+    const MUTATE_NAME: &'static str = "HipOsStr::mutate (guard takes the OsString)";
+    fn into_vec(self, _: usize) -> Result<Vec<u8>, Self> {
+        HipOsStr::into_os_string(self).map(OsString::into_vec)
     }
-    fn to_vec(self, var: u64) -> Vec<u8> {
-        match var % 2 {
+    fn to_vec(self, route: usize) -> Vec<u8> {
+        match route {
             1 => Vec::<u8>::from(self),
+            2 => Cow::<'static, OsStr>::from(self).into_owned().into_vec(),
             _ => OsString::from(self).into_vec(),
+        }
+    }
+    fn wrap_trip(self, var: u64, hops: &mut Hops) -> Self {
+        match var % 3 {
+            0 => {
+                let p = HipPath::from(self);
+                hops.hop("HipPath::from(HipOsStr)", p.verif_bytes());
+                let o = HipPath::into_os_str(p);
+                hops.hop("HipPath::into_os_str", o.verif_bytes());
+                o
+            }
+            1 => match HipOsStr::into_str(self) {
+                Ok(s) => {
+                    hops.hop("HipOsStr::into_str Ok", s.verif_bytes());
+                    let o = HipOsStr::from(s);
+                    hops.hop("HipOsStr::from(HipStr)", o.verif_bytes());
+                    o
+                }
+                Err(o) => {
+                    hops.hop("HipOsStr::into_str Err(self)", o.verif_bytes());
+                    o
+                }
+            },
+            _ => {
+                let p = HipPath::from(self);
+                hops.hop("HipPath::from(HipOsStr)", p.verif_bytes());
+                let o = HipOsStr::from(p);
+                hops.hop("HipOsStr::from(HipPath)", o.verif_bytes());
+                o
+            }
         }
     }
     fn into_borrowed(self) -> Result<&'static [u8], Self> {
@@ -1021,7 +1292,7 @@ impl<B: Backend> Subject for HipPath<'static, B> {
     fn supports(op: &Op) -> bool {
         match op {
             Op::Mutate { script, .. } => script.iter().all(|o| matches!(o, VOp::Ext(_) | VOp::Clear)),
-            Op::New { .. } | Op::FromSlice { .. } | Op::FromVec { .. } | Op::Borrowed { .. } => true,
+            Op::New { .. } | Op::FromSlice { .. } | Op::FromVec { .. } | Op::Borrowed { .. } | Op::WrapTrip { .. } => true,
             Op::Clone { .. } | Op::ShrinkTo { .. } | Op::ShrinkFit { .. } | Op::IntoOwned { .. } => true,
             Op::IntoVec { .. } | Op::ToVec { .. } | Op::IntoBorrowed { .. } | Op::Drop { .. } => true,
             _ => false,
@@ -1057,9 +1328,10 @@ impl<B: Backend> Subject for HipPath<'static, B> {
     fn shrink_to_fit(&mut self) {
         HipPath::shrink_to_fit(self)
     }
-    fn mutate(&mut self, script: &[VOp], leak: bool) -> Option<(usize, usize)> {
+    fn mutate(&mut self, script: &[VOp], leak: bool) -> (usize, Option<(usize, usize)>) {
         let mut g = HipPath::mutate(self);
         let s: &mut OsString = (&mut *g).as_mut_os_string();
+        let taken = s.as_bytes().as_ptr() as usize;
         for o in script {
             match o {
                 VOp::Ext(bs) => s.push(OsStr::from_bytes(bs)),
@@ -1070,24 +1342,58 @@ impl<B: Backend> Subject for HipPath<'static, B> {
         if leak {
             let r = (s.as_bytes().as_ptr() as usize, s.capacity());
             std::mem::forget(g);
-            Some(r)
+            (taken, Some(r))
         } else {
-            None
+            (taken, None)
         }
     }
     fn into_owned(self) -> Self {
         HipPath::into_owned(self)
     }
-    fn into_vec(self, var: u64) -> Result<Vec<u8>, Self> {
-        match var % 2 {
-            1 => self.into_os_string().map(OsString::into_vec),
-            _ => self.into_path_buf().map(|p| p.into_os_string().into_vec()),
+    const INTO_VEC_ROUTES: &'static [&'static str] = &["HipPath::into_path_buf", "HipPath::into_os_string"];
+    const TO_VEC_ROUTES: &'static [&'static str] = &["PathBuf::from(HipPath)", "OsString::from(HipPath)", "Cow<Path>::from(HipPath)"];
+    const MUTATE_NAME: &'static str = "HipPath::mutate (guard takes the PathBuf)";
+    fn into_vec(self, route: usize) -> Result<Vec<u8>, Self> {
+        match route {
+            1 => HipPath::into_os_string(self).map(OsString::into_vec),
+            _ => HipPath::into_path_buf(self).map(|p| p.into_os_string().into_vec()),
         }
     }
-    fn to_vec(self, var: u64) -> Vec<u8> {
-        match var % 2 {
+    fn to_vec(self, route: usize) -> Vec<u8> {
+        match route {
             1 => OsString::from(self).into_vec(),
+            2 => Cow::<'static, Path>::from(self).into_owned().into_os_string().into_vec(),
             _ => PathBuf::from(self).into_os_string().into_vec(),
+        }
+    }
+    fn wrap_trip(self, var: u64, hops: &mut Hops) -> Self {
+        match var % 3 {
+            0 => {
+                let o = HipPath::into_os_str(self);
+                hops.hop("HipPath::into_os_str", o.verif_bytes());
+                let p = HipPath::from(o);
+                hops.hop("HipPath::from(HipOsStr)", p.verif_bytes());
+                p
+            }
+            1 => match HipPath::into_str(self) {
+                Ok(s) => {
+                    hops.hop("HipPath::into_str Ok", s.verif_bytes());
+                    let p = HipPath::from(s);
+                    hops.hop("HipPath::from(HipStr)", p.verif_bytes());
+                    p
+                }
+                Err(p) => {
+                    hops.hop("HipPath::into_str Err(self)", p.verif_bytes());
+                    p
+                }
+            },
+            _ => {
+                let o = HipOsStr::from(self);
+                hops.hop("HipOsStr::from(HipPath)", o.verif_bytes());
+                let p = HipPath::from(o);
+                hops.hop("HipPath::from(HipOsStr)", p.verif_bytes());
+                p
+            }
         }
     }
     fn into_borrowed(self) -> Result<&'static [u8], Self> {
@@ -1211,6 +1517,8 @@ struct StepInfo {
     pre: String,
     outcome: String,
     impl_line: String,
+    /// conversions exercised by the step: (name, was the buffer-reuse / identity obligation in force?)
+    conv: Vec<(&'static str, bool)>,
 }
 
 enum StepRes {
@@ -1265,6 +1573,10 @@ struct Session<'l, T: Subject> {
     leaked_guards: usize,
     hdr_backend: String,
     hdr_ceil: u64,
+    /// monitor findings of the current step raised inside `exec`: (class, message)
+    extra_mon: Vec<(&'static str, String)>,
+    /// conversions exercised by the current step
+    step_conv: Vec<(&'static str, bool)>,
     /// lineage tracked by the harness itself: does the handle descend from `with_capacity(n > 23)`?
     taint: Vec<bool>,
     /// `with_capacity(n)` handles that have only been pushed into so far: `(n, as_ptr at creation)`
@@ -1337,6 +1649,8 @@ impl<'l, T: Subject> Session<'l, T> {
             leaked_guards: 0,
             hdr_backend: hdr.backend.clone(),
             hdr_ceil: hdr.ceil,
+            extra_mon: vec![],
+            step_conv: vec![],
             taint: vec![false; SLOTS],
             wcap: vec![None; SLOTS],
             last_vec_in: 0,
@@ -1477,6 +1791,7 @@ impl<'l, T: Subject> Session<'l, T> {
             Op::SPushStr { h, bs } => std::str::from_utf8(bs).is_ok() && cur(*h).len() + bs.len() <= 4096,
             Op::SPushChar { h, c } => char::from_u32(*c).is_some() && cur(*h).len() <= 4000,
             Op::SFromUtf8 { bs, .. } => bs.len() <= 4096,
+            Op::Flip { readings, .. } => !readings.is_empty() && readings.len() <= FLIP_MAX && !self.free().is_empty(),
             Op::Repeat { h, n, .. } => {
                 let total = cur(*h).len() as u128 * *n as u128;
                 // either small, or so large that both `checked_mul`/`Vec::with_capacity` refuse
@@ -1503,6 +1818,106 @@ impl<'l, T: Subject> Session<'l, T> {
         r
     }
 
+    /// `Some((owner buffer, len))` iff the handle is heap-backed, the sole owner, and its view
+    /// starts at offset 0 of the owner Vec: the case in which a consuming conversion must hand
+    /// the buffer over instead of copying.
+    fn sole_heap(&self, h: usize) -> Option<(usize, usize)> {
+        let hb = self.pool[h].as_ref()?.hb();
+        let (buf, _, _, _, shares) = hb.verif_owner_info()?;
+        (shares == 1 && hb.as_ptr() as usize == buf).then_some((buf, hb.len()))
+    }
+
+    /// Buffer-reuse obligation of a consuming conversion (`got` = the std result's buffer, `None`
+    /// = the conversion refused and gave the value back).
+    fn reuse_check(&mut self, name: &'static str, pre: Option<(usize, usize)>, got: Option<usize>, max_alloc: usize) {
+        self.step_conv.push((name, pre.is_some()));
+        let Some((buf, len)) = pre else { return };
+        match got {
+            None => self.extra_mon.push(("reuse", format!("{name}: refused (Err) although the value is the sole owner of its heap buffer at offset 0"))),
+            Some(p) if p != buf => self.extra_mon.push((
+                "reuse",
+                format!("{name}: the value is the sole owner of its heap buffer at offset 0 ({len} bytes) but the result lives in another buffer: COPIED instead of handed over"),
+            )),
+            Some(_) if max_alloc >= len.max(1) => self.extra_mon.push((
+                "reuse",
+                format!("{name}: same pointer but a buffer of {max_alloc} bytes (>= len {len}) was allocated during the conversion"),
+            )),
+            Some(_) => {}
+        }
+    }
+
+    /// `slice`/`try_slice` with an impure range.  Whatever the range answers, the result must
+    /// be the std slice of ONE of the scripted readings (or an error / panic), lie in live
+    /// memory, and (HipStr) be well-formed.  The result is dropped before the step ends.
+    fn exec_flip(&mut self, h: usize, readings: &[(Bd, Bd)], try_: bool) -> String {
+        let d = self.free()[0];
+        let r = self.with_ceiling(h, |x| {
+            counted(|| {
+                let fr = FlipRange::new(readings);
+                if try_ {
+                    x.try_slice_flip(fr).ok()
+                } else {
+                    Some(x.slice_flip(fr))
+                }
+            })
+        });
+        let ret = match r {
+            None => "panic".to_string(),
+            Some(None) => "err".to_string(),
+            Some(Some(v)) => {
+                // first of all: is the view sane at all?  (a range read twice may have produced a
+                // view outside the value: it must not be dereferenced, nor dropped)
+                let sane = {
+                    let hb = v.hb();
+                    let (p, len) = (hb.as_ptr() as usize, hb.len());
+                    if hb.is_inline() {
+                        len <= ICAP
+                    } else if hb.is_borrowed() {
+                        self.srcs.iter().any(|s| p >= s.as_ptr() as usize && p.checked_add(len).map_or(false, |e| e <= s.as_ptr() as usize + s.len()))
+                    } else {
+                        hb.verif_owner_info().map_or(false, |(buf, vlen, _, _, _)| p >= buf && (p - buf).checked_add(len).map_or(false, |e| e <= vlen))
+                    }
+                };
+                if !sane {
+                    let line = Op::Flip { h, readings: readings.to_vec(), try_, s: T::text() }.line();
+                    self.extra_mon.push(("heap", format!("result of a slice with an impure range {line}: the view (len {}) lies outside the value it was sliced from", v.hb().len())));
+                    std::mem::forget(v);
+                    return "ok".to_string();
+                }
+                self.pool[d] = Some(v);
+                let got = self.pool[d].as_ref().unwrap().hb().as_slice().to_vec();
+                // heap / UTF-8 monitors on the temporary (its block must not enter the canonical
+                // block numbering shared with the model)
+                let saved = self.impl_blk.clone();
+                let (_, mon) = self.observe();
+                self.impl_blk = saved;
+                for m in mon {
+                    if m.starts_with(&format!("h{d}:")) {
+                        let class = if m.contains("ill-formed UTF-8") { "utf8" } else { "heap" };
+                        self.extra_mon.push((class, format!("result of a slice with an impure range {}: {m}", Op::Flip { h, readings: readings.to_vec(), try_, s: T::text() }.line())));
+                    }
+                }
+                let src = self.oracle[h].as_deref().unwrap_or(&[]);
+                let matches_one = readings.iter().any(|(a, b)| {
+                    if T::text() {
+                        std::str::from_utf8(src).ok().and_then(|s| s.get((a.bound(), b.bound()))).map_or(false, |s| s.as_bytes() == &got[..])
+                    } else {
+                        src.get((a.bound(), b.bound())).map_or(false, |s| s == &got[..])
+                    }
+                });
+                if !matches_one {
+                    self.extra_mon.push(("flip", format!("the result {} is not the std slice of any single reading of the range", hex(&got))));
+                }
+                let tmp = self.pool[d].take();
+                alloc::set_mode(alloc::TRACK);
+                drop(tmp);
+                alloc::set_mode(alloc::OFF);
+                "ok".to_string()
+            }
+        };
+        ret
+    }
+
     fn install(&mut self, d: usize, r: Option<T>, ok: &str) -> String {
         match r {
             Some(v) => {
@@ -1515,7 +1930,19 @@ impl<'l, T: Subject> Session<'l, T> {
 
     /// executes the op on the real crate; returns the result in the driver's `showRet` syntax
     fn exec(&mut self, op: &Op) -> String {
-        let var = op.variant();
+        // which of several equivalent API routes is taken: a hash of the op line and of the
+        // target's current contents (deterministic on replay, stable under shrinking of other ops)
+        let var = {
+            let mut v = op.variant();
+            if let Some(c) = op.slots().0.and_then(|h| self.oracle.get(h)).and_then(|o| o.as_ref()) {
+                let mut x: u64 = 0xcbf2_9ce4_8422_2325 ^ c.len() as u64;
+                for b in c {
+                    x = (x ^ *b as u64).wrapping_mul(0x1000_0000_01b3);
+                }
+                v ^= x >> 11;
+            }
+            v
+        };
         let unit = |r: Option<()>| if r.is_some() { "unit".to_string() } else { "panic".to_string() };
         match op {
             Op::New { d } => {
@@ -1658,9 +2085,11 @@ impl<'l, T: Subject> Session<'l, T> {
                 self.install(*d, r, "unit")
             }
             Op::Mutate { h, script, leak } => {
+                let pre = self.sole_heap(*h);
                 let x = self.pool[*h].as_mut().unwrap();
                 match counted(|| x.mutate(script, *leak)) {
-                    Some(l) => {
+                    Some((taken, l)) => {
+                        self.reuse_check(T::MUTATE_NAME, pre, Some(taken), 0);
                         if let Some((p, cap)) = l {
                             if cap > 0 {
                                 alloc::mark_leak_ok(p);
@@ -1678,26 +2107,64 @@ impl<'l, T: Subject> Session<'l, T> {
                 self.install(*d, r, "unit")
             }
             Op::IntoVec { h } => {
+                let pre = self.sole_heap(*h);
+                let route = var as usize % T::INTO_VEC_ROUTES.len();
+                let name = T::INTO_VEC_ROUTES[route];
                 let x = self.pool[*h].take().unwrap();
-                match counted(move || x.into_vec(var)) {
+                let _ = alloc::take_max_alloc();
+                match counted(move || x.into_vec(route)) {
                     Some(Ok(v)) => {
+                        self.reuse_check(name, pre, Some(v.as_ptr() as usize), alloc::take_max_alloc());
                         self.last_vec_out = Some((v.as_ptr() as usize, v.capacity()));
                         format!("bytes:{}", hex(&v))
                     }
                     Some(Err(x)) => {
                         self.pool[*h] = Some(x);
+                        self.reuse_check(name, pre, None, 0);
                         "false".into()
                     }
                     None => "panic".into(),
                 }
             }
             Op::ToVec { h } => {
+                let pre = self.sole_heap(*h);
+                let route = var as usize % T::TO_VEC_ROUTES.len();
+                let name = T::TO_VEC_ROUTES[route];
                 let x = self.pool[*h].take().unwrap();
-                match counted(move || x.to_vec(var)) {
-                    Some(v) => format!("bytes:{}", hex(&v)),
+                let _ = alloc::take_max_alloc();
+                match counted(move || x.to_vec(route)) {
+                    Some(v) => {
+                        self.reuse_check(name, pre, Some(v.as_ptr() as usize), alloc::take_max_alloc());
+                        format!("bytes:{}", hex(&v))
+                    }
                     None => "panic".into(),
                 }
             }
+            Op::WrapTrip { h } => {
+                let x = self.pool[*h].take().unwrap();
+                let mut hops = Hops::new(x.hb());
+                let before = alloc::peek_events();
+                let r = counted(|| x.wrap_trip(var, &mut hops));
+                let after = alloc::peek_events();
+                for k in 0..hops.n {
+                    self.step_conv.push((hops.names[k], true));
+                }
+                if let Some(name) = hops.moved {
+                    self.extra_mon.push(("reuse", format!("{name}: a wrapper-to-wrapper move must keep the bytes where they are (same pointer, length and representation)")));
+                }
+                if before != after {
+                    let hop_list = hops.names[..hops.n].join(" -> ");
+                    self.extra_mon.push(("reuse", format!("wrapper-to-wrapper moves must not touch the allocator: {hop_list}: events {:?} -> {:?}", &before[..5], &after[..5])));
+                }
+                match r {
+                    Some(v) => {
+                        self.pool[*h] = Some(v);
+                        "unit".into()
+                    }
+                    None => "panic".into(),
+                }
+            }
+            Op::Flip { h, readings, try_, .. } => self.exec_flip(*h, readings, *try_),
             Op::IntoBorrowed { h } => {
                 let x = self.pool[*h].take().unwrap();
                 match counted(move || x.into_borrowed()) {
@@ -1800,6 +2267,8 @@ enum Exp {
     SliceErr,
     /// a number std does not define (spare capacity)
     AnyNat,
+    /// an implementation-only probe: its own checks decide
+    Any,
 }
 
 impl Exp {
@@ -1808,7 +2277,7 @@ impl Exp {
         if ret == "rejected" {
             return match self {
                 Exp::Exact(s) => s == "panic" || s.starts_with("utf8err:"),
-                Exp::SliceErr => true,
+                Exp::SliceErr | Exp::Any => true,
                 Exp::AnyNat => false,
             };
         }
@@ -1819,6 +2288,7 @@ impl Exp {
             Exp::Exact(s) => s == ret,
             Exp::SliceErr => ret.starts_with("err:"),
             Exp::AnyNat => ret.starts_with("nat:"),
+            Exp::Any => true,
         }
     }
     fn show(&self) -> String {
@@ -1826,6 +2296,7 @@ impl Exp {
             Exp::Exact(s) => s.clone(),
             Exp::SliceErr => "err:*".into(),
             Exp::AnyNat => "nat:*".into(),
+            Exp::Any => "*".into(),
         }
     }
 }
@@ -1994,6 +2465,8 @@ fn oracle_step(pool: &mut [Option<Vec<u8>>], srcs: &[&'static [u8]], op: &Op, fl
             }
         }
         Op::Spare { .. } => Exp::AnyNat,
+        Op::WrapTrip { .. } => ex("unit"),
+        Op::Flip { .. } => Exp::Any,
         Op::Drop { h } => {
             pool[*h] = None;
             ex("unit")
@@ -2397,8 +2870,19 @@ impl<'l, T: Subject> Session<'l, T> {
             }
         });
         let _ = alloc::take_events();
+        self.extra_mon.clear();
+        self.step_conv.clear();
         let ret = self.exec(op);
         let ev = alloc::take_events();
+        for (class, m) in std::mem::take(&mut self.extra_mon) {
+            let expected = match class {
+                "reuse" => "a consuming conversion of the sole owner of a heap buffer at offset 0 hands the buffer over; wrapper-to-wrapper moves keep the bytes in place (C07)",
+                "utf8" => "every live HipStr is well-formed UTF-8 after every step",
+                "flip" => "slicing with an impure RangeBounds yields the slice of ONE reading of the range, an error or a panic",
+                _ => "every view inside live memory it owns or borrows",
+            };
+            add("monitor", class.to_string(), expected.into(), m);
+        }
         for m in self.repr_monitor(op, pre_repr.as_ref(), &ret, &ev) {
             add("monitor", "repr".into(), "the representation contract (C07)".into(), m);
         }
@@ -2446,8 +2930,8 @@ impl<'l, T: Subject> Session<'l, T> {
             obs.iter().map(|(i, f)| format!("h{i}={}", f.join(","))).collect::<Vec<_>>().join(" ")
         );
 
-        // 4. model and spec: deferred to `flush` (pipelined)
-        if self.lean.is_some() {
+        // 4. model and spec: deferred to `flush` (pipelined); probes are not the model's business
+        if self.lean.is_some() && !op.impl_only() {
             self.queue.push(line.clone());
             self.pending.push(Pending {
                 step,
@@ -2472,6 +2956,7 @@ impl<'l, T: Subject> Session<'l, T> {
             pre,
             outcome: format!("{post}/{rclass}/{}", if eclass.is_empty() { "noalloc".into() } else { eclass }),
             impl_line: format!("{line}  =>  {impl_line}"),
+            conv: self.step_conv.clone(),
         };
         dis.sort_by_key(|d| rank(d.kind));
         Ok(StepRes::Done(info, dis.into_iter().next()))
@@ -2650,6 +3135,8 @@ struct Stats {
     disagreements: Vec<serde_json::Value>,
     seen: BTreeSet<String>,
     shrink_runs: u64,
+    /// consuming conversions: name -> (calls, calls with the reuse/identity obligation checked)
+    conv: BTreeMap<String, (u64, u64)>,
     /// where and how stats.json is (re)written as soon as a disagreement is recorded
     out: Option<String>,
     meta: serde_json::Map<String, serde_json::Value>,
@@ -2673,6 +3160,10 @@ impl Stats {
         out.insert("seconds".into(), self.started.map_or(0.0, |t| t.elapsed().as_secs_f64()).into());
         out.insert("shrink_runs".into(), self.shrink_runs.into());
         out.insert("per_type_backend".into(), serde_json::json!(self.by_type));
+        out.insert(
+            "conversions".into(),
+            serde_json::json!(self.conv.iter().map(|(k, v)| (k.clone(), serde_json::json!({"calls": v.0, "reuse_checked": v.1}))).collect::<BTreeMap<_, _>>()),
+        );
         out.insert("distribution".into(), serde_json::json!(self.dist));
         out.insert("samples".into(), serde_json::json!(self.samples));
         out.insert("disagreements".into(), serde_json::json!(self.disagreements));
@@ -2693,6 +3184,11 @@ impl Stats {
         *self.dist.entry(key.clone()).or_insert(0) += 1;
         self.triples.insert(key);
         *self.by_type.entry(format!("{ty}/{backend}")).or_insert(0) += 1;
+        for (name, checked) in &info.conv {
+            let e = self.conv.entry(name.to_string()).or_insert((0, 0));
+            e.0 += 1;
+            e.1 += *checked as u64;
+        }
         if self.samples.len() < 12 && self.evaluations % 9973 == 1 {
             self.samples.push(format!("[{ty}/{backend}] {}", info.impl_line));
         }
@@ -2758,6 +3254,13 @@ fn shorter_payloads(op: &Op, text: bool) -> Vec<Op> {
         }
         Op::Push { h, bs } => v.extend(cut(bs).into_iter().map(|b| Op::Push { h: *h, bs: b })),
         Op::SPushStr { h, bs } => v.extend(cut(bs).into_iter().map(|b| Op::SPushStr { h: *h, bs: b })),
+        Op::Flip { h, readings, try_, s } if readings.len() > 1 => {
+            for k in 0..readings.len() {
+                let mut r = readings.clone();
+                r.remove(k);
+                v.push(Op::Flip { h: *h, readings: r, try_: *try_, s: *s });
+            }
+        }
         Op::SFromUtf8 { d, bs } => {
             for n in [0, 1, bs.len() / 2, bs.len().saturating_sub(1)] {
                 if n < bs.len() {
@@ -2867,7 +3370,7 @@ fn shrink<T: Subject>(hdr: &Hdr, ops: Vec<Op>, target: &Dis, lean: &mut Option<L
 
 /// a monitor class after which the process's heap can no longer be trusted
 fn heap_corrupting(d: &Dis) -> bool {
-    d.kind == "monitor" && d.sub != "utf8" && d.sub != "repr" && !d.sub.ends_with(alloc::violation_name(alloc::V_LEAK))
+    d.kind == "monitor" && d.sub != "utf8" && d.sub != "repr" && d.sub != "reuse" && d.sub != "flip" && !d.sub.ends_with(alloc::violation_name(alloc::V_LEAK))
 }
 
 fn dis_json(hdr: &Hdr, ops: &[Op], dis: &Dis, shrunk: bool) -> serde_json::Value {
@@ -3056,12 +3559,48 @@ fn gen_str_op<T: Subject>(rng: &mut Rng, s: &Session<T>) -> Option<Op> {
     s.applicable(&op).then_some(op)
 }
 
+/// a slice with an impure range: the first reading is valid (and on char boundaries), repeated
+/// 1..3 times (debug builds read the range once more), later readings are anything
+fn gen_flip<T: Subject>(rng: &mut Rng, s: &Session<T>) -> Option<Op> {
+    let live = s.live();
+    if live.is_empty() || s.free().is_empty() {
+        return None;
+    }
+    let h = *rng.pick(&live);
+    let v = s.oracle[h].as_deref().unwrap_or(&[]);
+    let len = v.len();
+    let a = floor_boundary(v, rng.below(len + 1));
+    let b = floor_boundary(v, a + rng.below(len - a + 1)).max(a);
+    let mut readings = vec![];
+    let first = bounds_for(rng, a, b, len);
+    for _ in 0..1 + rng.below(3) {
+        readings.push(first);
+    }
+    for _ in 0..1 + rng.below(2) {
+        let a2 = rng.below(len + 3);
+        let b2 = rng.below(len + 3);
+        readings.push(match rng.below(6) {
+            0 => (bad_bound(rng, len), bad_bound(rng, len)),
+            1 => (Bd::I(a2.max(b2)), Bd::X(a2.min(b2))),
+            _ => bounds_for(rng, a2.min(b2), a2.max(b2), len),
+        });
+    }
+    let op = Op::Flip { h, readings, try_: rng.chance(2, 3), s: T::text() };
+    s.applicable(&op).then_some(op)
+}
+
 /// One random op for the current state (type-directed, biased towards the boundaries).
 fn gen_op<T: Subject>(rng: &mut Rng, s: &Session<T>, malformed: bool) -> Option<Op> {
     let text = T::text();
     let live = s.live();
     let free = s.free();
     for _ in 0..60 {
+        if !live.is_empty() && rng.chance(1, 16) {
+            let op = if rng.chance(1, 2) { gen_flip::<T>(rng, s) } else { Some(Op::WrapTrip { h: *rng.pick(&live) }) };
+            if let Some(op) = op.filter(|op| s.applicable(op)) {
+                return Some(op);
+            }
+        }
         if text && rng.chance(3, 10) {
             if let Some(op) = gen_str_op::<T>(rng, s) {
                 return Some(op);
@@ -3342,6 +3881,7 @@ fn alphabet<T: Subject>(s: &Session<T>, t: usize) -> Vec<Op> {
         Op::Repeat { h: t, d, n: 2 },
         Op::Repeat { h: t, d, n: 0 },
         Op::Spare { h: t },
+        Op::WrapTrip { h: t },
         Op::Drop { h: t },
     ];
     if !text {
@@ -3525,6 +4065,88 @@ fn str_grid<T: Subject>(backend: &str, ceil: u64, st: &mut Stats, lean: &mut Opt
     Ok(n)
 }
 
+/// Deterministic grid of impure ranges (`HipByt`/`HipStr` `slice`/`try_slice`): a valid first
+/// reading (honest for 1 or 2 queries: debug builds read the range once more), then every
+/// second reading over a small index grid (shorter, longer, off a char boundary, reversed, out of
+/// range); haystacks with multi-byte scalars; inline, borrowed, heap, offset-heap values.
+fn flip_grid<T: Subject>(backend: &str, st: &mut Stats, lean: &mut Option<LeanDriver>, save: &Option<String>) -> Result<u64, String> {
+    let text = T::text();
+    if !T::supports(&Op::Flip { h: 0, readings: vec![(Bd::U, Bd::U)], try_: true, s: text }) {
+        return Ok(0);
+    }
+    let h1 = "€".as_bytes().to_vec();
+    let h2 = "a€é🦀b".as_bytes().to_vec(); // 11 bytes
+    let h3 = "0123€é🦀\u{10FFFF}abcdefgh\u{FFFD}\u{301}xyz€".as_bytes().to_vec(); // 38 bytes: heap
+    let hdr = Hdr { ty: T::TY.into(), backend: backend.into(), ceil: REAL_CEIL, srcs: vec![h1.clone(), h2.clone(), h3.clone()] };
+    let mut seqs: Vec<Vec<Op>> = vec![];
+    for (k, hay) in [&h1, &h2, &h3].into_iter().enumerate() {
+        let len = hay.len();
+        // (constructor ops, handle to slice)
+        let mut reprs: Vec<(Vec<Op>, usize)> = vec![
+            (vec![Op::FromSlice { d: 0, bs: hay.clone() }], 0),
+            (vec![Op::Borrowed { d: 0, src: k, off: 0, len }], 0),
+            (vec![Op::FromVec { d: 0, bs: hay.clone(), cap: len + 30 }], 0),
+        ];
+        if len > 30 {
+            // an offset view into a shared heap buffer
+            reprs.push((vec![Op::FromSlice { d: 0, bs: hay.clone() }, Op::Slice { h: 0, d: 1, sb: Bd::I(4), eb: Bd::U, try_: false }], 1));
+        }
+        let mut idx: Vec<usize> = if !text {
+            // no char boundaries to miss on raw bytes: a coarse grid
+            vec![0, 1, len / 2, len.saturating_sub(1), len, len + 1]
+        } else if len <= 11 {
+            (0..=len + 1).collect()
+        } else {
+            vec![0, 1, 4, 5, 6, 7, len - 4, len - 1, len, len + 1]
+        };
+        idx.sort();
+        idx.dedup();
+        for (pre, h) in reprs {
+            let vlen = if h == 1 { len - 4 } else { len };
+            let view = if h == 1 { &hay[4..] } else { &hay[..] };
+            let mut firsts = vec![(0usize, vlen)];
+            if vlen > 3 {
+                firsts.push((floor_boundary(view, 1), floor_boundary(view, vlen - 1)));
+            }
+            for (a0, b0) in firsts {
+                for honest in 1..=2 {
+                    for &a in &idx {
+                        for &b in &idx {
+                            if a > vlen + 1 || b > vlen + 1 {
+                                continue;
+                            }
+                            let mut readings = vec![(Bd::I(a0), Bd::X(b0)); honest];
+                            readings.push((Bd::I(a), Bd::X(b)));
+                            let mut q = pre.clone();
+                            q.push(Op::Flip { h, readings, try_: (a + b) % 4 != 0, s: text });
+                            seqs.push(q);
+                        }
+                    }
+                    let mut q = pre.clone();
+                    q.push(Op::Flip { h, readings: vec![(Bd::I(a0), Bd::X(b0)), (Bd::I(usize::MAX), Bd::I(usize::MAX)), (Bd::U, Bd::X(1))], try_: true, s: text });
+                    seqs.push(q);
+                }
+            }
+        }
+    }
+    let n = seqs.len() as u64;
+    for q in seqs {
+        if st.stop {
+            break;
+        }
+        let r = run_ops::<T>(&hdr, &q, lean.as_mut())?;
+        for i in &r.infos {
+            st.record(T::TY, backend, i);
+        }
+        st.sequences += 1;
+        if let Some(d) = r.dis {
+            let applied: Vec<Op> = r.applied.iter().filter_map(|l| Op::parse(l)).collect();
+            report::<T>(st, &hdr, applied, d, lean, save);
+        }
+    }
+    Ok(n)
+}
+
 // ---------------------------------------------------------------------------------------------
 // replay, campaign, main
 // ---------------------------------------------------------------------------------------------
@@ -3636,6 +4258,10 @@ fn run_all(cli: &hipverif_harness::util::Cli, st: &mut Stats, lean: &mut Option<
     let mut exh = 0u64;
     for b in ["arc", "rc", "unique"] {
         let t0 = std::time::Instant::now();
+        // the deterministic grids first: their failing inputs are the smallest
+        exh += dispatch!("str", b, str_grid, b, REAL_CEIL, st, lean, save)?;
+        exh += dispatch!("byt", b, flip_grid, b, st, lean, save)?;
+        exh += dispatch!("str", b, flip_grid, b, st, lean, save)?;
         dispatch!("byt", b, campaign, b, 1500 * mult / div, cli.seed, st, lean, save)?;
         dispatch!("str", b, campaign, b, 800 * mult / div, cli.seed, st, lean, save)?;
         dispatch!("os", b, campaign, b, 400 * mult / div, cli.seed, st, lean, save)?;
@@ -3643,7 +4269,7 @@ fn run_all(cli: &hipverif_harness::util::Cli, st: &mut Stats, lean: &mut Option<
         if verbose {
             eprintln!("{b}: random done, {} steps, {:.1}s", st.evaluations, t0.elapsed().as_secs_f64());
         }
-        exh += dispatch!("str", b, str_grid, b, REAL_CEIL, st, lean, save)?;
+
         if no_exh {
             continue;
         }
